@@ -77,6 +77,8 @@ def piece_bytes(x, rng):
         return b"\x00\x00", True
     if x == "eof_in_body":
         return struct.pack(">I", 100) + b"0123456789", True
+    if x == "put_len_beyond_eof":
+        return cb.frame({"Put": {"path": "f", "expected": H("c1"), "len": len(C["c2"]) + 4096, "hash": H("c2")}}) + C["c2"], True
     if x == "put_content_eof":
         return cb.frame({"Put": {"path": "f", "expected": H("c1"), "len": len(C["c2"]), "hash": H("c2")}}) + C["c2"][:len(C["c2"]) // 2], True
     raise ValueError(x)
